@@ -692,11 +692,12 @@ Proof.
 Qed.
 
 (* the in-band table replacement is consumed by the receiver machine at top level and leaves no object behind *)
-Lemma parse_table_tokens tbl : forall acc n rest, parse_table (table_tokens tbl ++ TClose n :: rest) acc = Some (acc ++ tbl, rest).
+Lemma parse_table_tokens tbl : forallb word_ok (map fst tbl) = true ->
+  forall acc n rest, parse_table (table_tokens tbl ++ TClose n :: rest) acc = Some (Some (acc ++ tbl), rest).
 Proof.
-  induction tbl as [|[s i] r IH]; intros acc n rest; cbn [table_tokens app parse_table].
+  induction tbl as [|[s i] r IH]; intros WK acc n rest; cbn [table_tokens app parse_table].
   - rewrite app_nil_r. reflexivity.
-  - rewrite IH, <- app_assoc. reflexivity.
+  - cbn [map fst forallb] in WK. apply andb_true_iff in WK as [W1 W2]. rewrite W1, (IH W2), <- app_assoc. reflexivity.
 Qed.
 
 (* ------------------------------------------------------------------ the known-defective region, on the model *)
